@@ -111,10 +111,10 @@ func init() {
 			{Name: "enumerated-scripts", Timeout: 120 * time.Second, Count: func(t string) int { return enumShards }, Run: func(c *sup.Ctx) {
 				enumScripts(c, tierN(c.Tier, 3, 4))
 			}},
-			{Name: "random-scripts", Timeout: 120 * time.Second, Count: func(t string) int { return tierN(t, 300, 6000) }, Run: func(c *sup.Ctx) {
+			{Name: "random-scripts", Timeout: 120 * time.Second, Count: func(t string) int { return tierN(t, 300, 20000) }, Run: func(c *sup.Ctx) {
 				randomScripts(c, rng.New(c.Seed, rng.HashString("C13rand"), uint64(c.Local)))
 			}},
-			{Name: "storms", Timeout: 90 * time.Second, Count: func(t string) int { return tierN(t, 200, 4000) }, Run: func(c *sup.Ctx) {
+			{Name: "storms", Timeout: 90 * time.Second, Count: func(t string) int { return tierN(t, 200, 12000) }, Run: func(c *sup.Ctx) {
 				stormScenario(c, rng.New(c.Seed, rng.HashString("C13storm"), uint64(c.Local)))
 			}},
 			{Name: "storms-race", Race: true, Timeout: 120 * time.Second, Count: func(t string) int { return tierN(t, 16, 160) }, Run: func(c *sup.Ctx) {
